@@ -87,4 +87,32 @@ example : (txStep sA [upd 0 0 4 2, .updateClient 0 .top { hdrTx with h := 4, con
 example : (step sBad (upd 0 0 6 1)).2 = .ok ∧
     ((getClient (step sBad (upd 0 0 6 1)).1 0).bind fun cl => getCons cl 5) = some ⟨99, 50, 1⟩ := by decide
 
+-- ------------------------------------------------------------------------------------------------ designation first
+
+/-- rollapp 0 with heights 1..3 posted and a client (not canonical) whose consensus state at height 1 agrees -/
+def opsE : List Op := mkRa 0 0 ++ [upd 0 0 1 3, .createClient 0 expParams 1 ⟨2, 10, 1⟩]
+def sE : St := run (init P0) opsE
+
+/-- a header for the posted height 3 with root 99 (descriptor: 4) naming the unregistered key 1001 as proposer -/
+def hdrUnattr : Hdr := { h := 3, cons := ⟨99, 30, 1⟩, propSig := 1001, propData := 1001, rev := 0, sole := false }
+
+/-- second shape of **agreement_inv_tx_counterexample**: ONE transaction [designation, header].  The ante handler sees a
+    client that is not canonical and a proposer that is no sequencer; alone, either order of the two messages in two
+    transactions is refused. -/
+theorem agreement_inv_tx_counterexample_designation :
+    (txStep sE [.setCanonical 0, .updateClient 0 .top hdrUnattr true]).2 = .ok ∧
+    lookup (txStep sE [.setCanonical 0, .updateClient 0 .top hdrUnattr true]).1.r2c 0 = some 0 ∧
+    ((getClient (txStep sE [.setCanonical 0, .updateClient 0 .top hdrUnattr true]).1 0).bind fun cl => (getCons cl 3).map (·.root)) = some 99 ∧
+    ((getDesc (txStep sE [.setCanonical 0, .updateClient 0 .top hdrUnattr true]).1 0 3).map (·.root)) = some 4 ∧
+    (step (step sE (.setCanonical 0)).1 (.updateClient 0 .top hdrUnattr true)).2 = .ante .nonSequencer ∧
+    (step (step sE (.updateClient 0 .top hdrUnattr true)).1 (.setCanonical 0)).2 = .msg .root := by decide
+
+/-- **misbehaviour_rejected_tx_counterexample** (monitor `C09/misbehaviour_rejected/client-designated-and-frozen-in-one-transaction`):
+    ONE transaction [designation, verifying evidence] leaves the canonical client frozen; `misbehaviour_rejected`
+    (Props/C09.lean) is the statement for single-message transactions. -/
+theorem misbehaviour_rejected_tx_counterexample :
+    (txStep sE [.setCanonical 0, .misbehaviour 0 .submit true]).2 = .ok ∧
+    lookup (txStep sE [.setCanonical 0, .misbehaviour 0 .submit true]).1.c2r 0 = some 0 ∧
+    ((getClient (txStep sE [.setCanonical 0, .misbehaviour 0 .submit true]).1 0).map (·.frozen)) = some true := by decide
+
 end DymVerif.Props.C09
